@@ -8,6 +8,8 @@ CONSTANTS
   ConstVal = 5
   MinVars = 1
   MaxK = 2
+  SteadyT = 5
+  SolveOK <- MC_SolveQuick
   AsFound_SubstitutesVarWithIC = TRUE
 INVARIANT TypeOK
 INVARIANT C03_Partition
